@@ -157,6 +157,9 @@ pub fn install_panic_hook() {
         } else {
             "<non-string panic>".to_string()
         };
+        if std::env::var("VERIF_BT").is_ok() {
+            eprintln!("PANIC {}:{} {}\n{}", loc.0, loc.1, msg, std::backtrace::Backtrace::force_capture());
+        }
         let quiet = QUIET.with(|q| *q.borrow());
         LAST_PANIC.with(|p| *p.borrow_mut() = Some((loc.0, loc.1, msg)));
         if !quiet {
